@@ -1,5 +1,6 @@
 import Evl.Model.Sinks
 import Evl.Generated.LockSites
+import Evl.Generated.SinkFacts
 /-!
 # C13 — sinks deliver exactly the bytes of their configured format, or report an error
 
@@ -111,6 +112,11 @@ theorem channel_exactly_one (cr cd to : Bool) (o : ChanOut) :
 /-- the sinks' single WriteTo happens under their own mutex, exclusively (regenerated fact) -/
 theorem write_under_lock : Evl.Generated.sinkWrites.all (·.2) = true ∧
     (Evl.Generated.sinkWrites.any (·.1 == 0)) = true ∧ (Evl.Generated.sinkWrites.any (·.1 == 1)) = true := by decide
+
+/-- ChannelSink hands the event over in a single select that also watches the context and the
+timeout, so whichever becomes ready first ends the call (regenerated from channel_sink.go) -/
+theorem channel_single_select : Evl.Generated.channelSelects = 1 ∧ Evl.Generated.channelSendWithCtx = true ∧
+    Evl.Generated.channelSendWithTimer = true ∧ Evl.Generated.channelUnguardedSends = 0 := by decide
 
 example : writerProcess false false 0 [(1, [7, 8])] .ok = .wrote [7, 8] := by decide
 example : writerProcess false false 5 [(1, [7, 8])] .ok = .errNotMarshaled := by decide
